@@ -13,10 +13,15 @@ E1  every getter (object methods and the module level get_nasa_*/get_nasa9_*/get
 E2  T2 H/RT(T2) - T1 H/RT(T1) = int Cp/R dT and S/R(T2) - S/R(T1) = int Cp/(R T) dT on
     sub-intervals inside one segment, Gauss-Legendre over the *real* scalar Cp getter
 E3  G/RT = H/RT - S/R (scalar and array, methods and get_shomate_GoRT)
-E4  NASA-9: T outside every segment (below, above, in a gap) is refused (raises); T on any
-    segment bound never raises
+E4  NASA-9: T outside every segment (below / above the global limits at 1 ulp, relative 1e-12,
+    1e-9, 1e-6, absolute 1e-5 K and far; in a gap at 1 ulp / 1e-12 from either edge and far;
+    as scalar and as one element of an array) is refused (raises); T on any segment bound
+    never raises
 E5  array evaluation (list / ndarray, float / int elements, every length 1..50) equals the
-    per-element scalar evaluation and has one value per element
+    per-element scalar evaluation and has one value per element -- also for *histories*: one
+    container object evaluated, changed IN PLACE (shift T += dT, reverse, one element moved
+    across a break, slice assignment), evaluated again; two live containers evaluated
+    alternately with scalars in between; the getter must leave the caller's container untouched
 INV online invariants at sys.monitoring return hooks: Nasa.get_a returns a_high iff
     T >= T_mid; Nasa9._get_nasa returns a SingleNasa9 whose bounds contain T.
 """
@@ -28,12 +33,12 @@ from vf.gen import species as S
 from vf.ref import poly, quad
 
 ID = 'C02'
-N = {'quick': 8000, 'thorough': 100000}
+N = {'quick': 6000, 'thorough': 80000}
 NT_RULE = ('case = one NASA-7 / NASA-9 (1-4 segments, optionally with a gap) / Shomate (every unit '
            'accepted by constants.R) species with arbitrary or realistic coefficients drawn per case '
            'index from a seeded PRNG after a list of directed cases, plus explicit scalar (float, int), '
-           'array (list, ndarray, length 1-50) temperatures, sub-intervals and out-of-range '
-           'temperatures; non-trivial = >=1 temperature on or adjacent (1 ulp / 1e-9 relative) to a '
+           'array (list, ndarray, length 1-50) temperatures, in-place edit histories of one re-used '
+           'temperature container, sub-intervals and graded out-of-range temperatures; non-trivial = >=1 temperature on or adjacent (1 ulp / 1e-9 relative) to a '
            'break, or an array of length >=2; distinct = distinct canonical JSON of the case')
 REQUIRED_ORACLES = ['E1', 'E2', 'E3', 'E4', 'E5']
 UNITS_DOC = ['J/mol/K', 'kJ/mol/K', 'cal/mol/K', 'kcal/mol/K', 'eV/K', 'Eh/K', 'Ha/K', 'L atm/mol/K',
@@ -45,9 +50,14 @@ REQUIRED_CLASSES = (['Nasa', 'Nasa9', 'Shomate', 'style:arbitrary', 'style:reali
                      'nasa9:nseg=1', 'nasa9:nseg=2', 'nasa9:nseg=3', 'nasa9:nseg=4', 'nasa9:gap',
                      'T:on_shared_bound', 'T:bound-1ulp', 'T:bound+1ulp', 'T:on_gap_edge',
                      'out:below', 'out:above', 'out:gap', 'out:in_array',
+                     'hist:Nasa', 'hist:Nasa9', 'hist:Shomate', 'hist:list', 'hist:ndarray', 'hist:shift',
+                     'hist:reverse', 'hist:move', 'hist:assign', 'hist:element_changed_segment', 'hist:alternate',
                      'tkind:float', 'tkind:int', 'tkind:list', 'tkind:ndarray', 'elem:int', 'elem:float',
                      'int:on_break', 'array:straddles_break', 'array:has_break',
                      'ival:whole_segment', 'ival:short', 'ival:to_break', 'ival:from_break']
+                    + ['%s:%s:%s' % (p, w, d) for p in ('out', 'out_arr') for w in ('below', 'above')
+                       for d in ('1ulp', 'rel1e-12', 'rel1e-9', 'rel1e-6', 'abs1e-5', 'far')]
+                    + ['out:gap:1ulp', 'out_arr:gap:1ulp']
                     + ['units:%s' % u for u in UNITS_DOC]
                     + ['alen:%d' % n for n in range(1, 51)])
 # branches (get_a:low/high/T==T_mid, _get_nasa:T==T_low/T==T_high/interior) are recorded by the probes as
@@ -75,6 +85,9 @@ ASSUMPTIONS = [
     "E2 tolerance 1e-9*max(1,|integral|) + 2e-13*(sum of reference term magnitudes of the end-point "
     "values) -- the second part is the floating point cancellation of the two end-point terms",
     "warnings raised for in-range temperatures are telemetry (extra.inrange_warnings), not verdicts",
+    "a getter that changes the contents of the caller's temperature container is counted as an E5 violation "
+    "(what=input_modified): the next evaluation of that container would no longer be the requested one",
+    "dimensional getters (get_Cp/H/S/G with units) and the S_elements option are not driven here (C04)",
 ]
 
 TOL_E1 = 1e-12
@@ -128,16 +141,99 @@ def _breaks(sp):
     return out
 
 
+NEAR = ('1ulp', 'rel1e-12', 'rel1e-9', 'rel1e-6', 'abs1e-5')
+
+
 def _outside(sp, rng):
-    """NASA-9: list of [T, where] that lie in no segment"""
+    """NASA-9: list of [T, where, dist] that lie in no segment.  Just outside the global limits
+    the distance is graded (1 ulp, relative 1e-12 / 1e-9 / 1e-6, absolute 1e-5 K, far) so that a
+    'round-off tolerant' containment test is seen; in a gap: 1 ulp / 1e-12 from either edge, far."""
     segs = _segments(sp)
     lo, hi = segs[0][0], segs[-1][1]
-    out = [[_dn(lo), 'below'], [lo * (1 - 1e-9), 'below'], [round(lo - rng.uniform(0.01, 40.0), 3), 'below'],
-           [_up(hi), 'above'], [hi * (1 + 1e-9), 'above'], [round(hi + rng.uniform(0.01, 4000.0), 3), 'above']]
+    out = [[_dn(lo), 'below', '1ulp'], [lo * (1 - 1e-12), 'below', 'rel1e-12'], [lo * (1 - 1e-9), 'below', 'rel1e-9'],
+           [lo * (1 - 1e-6), 'below', 'rel1e-6'], [lo - 1e-5, 'below', 'abs1e-5'],
+           [round(lo - rng.uniform(0.01, 40.0), 3), 'below', 'far'],
+           [_up(hi), 'above', '1ulp'], [hi * (1 + 1e-12), 'above', 'rel1e-12'], [hi * (1 + 1e-9), 'above', 'rel1e-9'],
+           [hi * (1 + 1e-6), 'above', 'rel1e-6'], [hi + 1e-5, 'above', 'abs1e-5'],
+           [round(hi + rng.uniform(0.01, 4000.0), 3), 'above', 'far']]
     for (l0, h0), (l1, h1) in zip(segs[:-1], segs[1:]):
         if h0 < l1:
-            out += [[_up(h0), 'gap'], [_dn(l1), 'gap'], [h0 + (l1 - h0) * rng.uniform(0.05, 0.95), 'gap']]
+            out += [[_up(h0), 'gap', '1ulp'], [_dn(l1), 'gap', '1ulp'],
+                    [h0 + (l1 - h0) * rng.uniform(0.05, 0.95), 'gap', 'far']]
+            for T in (h0 * (1 + 1e-12), l1 * (1 - 1e-12)):
+                if h0 < T < l1:
+                    out.append([T, 'gap', 'rel1e-12'])
     return out
+
+
+def _in_range(sp, T):
+    return any(lo <= T <= hi for lo, hi in _segments(sp))
+
+
+def _seg_index(sp, T):
+    """index of the segment the statement selects (upper one on a NASA-7 / shared bound)"""
+    k = None
+    for i, (lo, hi) in enumerate(_segments(sp)):
+        if lo <= T <= hi:
+            k = i
+    return k
+
+
+def _make_history(rng, sp, kind=None, n=None, ops=None):
+    """one array object that is evaluated, changed IN PLACE, evaluated again ...
+    {'kind', 'T0': [...], 'steps': [['shift', dT] | ['reverse'] | ['move', j, T] | ['assign', [...]]]}
+    every intermediate content stays inside the segments (checked here with the same float
+    arithmetic the driver uses)."""
+    kind = kind or rng.choice(['list', 'ndarray'])
+    n = n or rng.randint(2, 9)
+    segs = _segments(sp)
+    glo, ghi = segs[0][0], segs[-1][1]
+    cur = [_rand_T(rng, sp) for _ in range(n)]
+    T0 = list(cur)
+    steps = []
+    if ops is None:
+        ops = rng.sample(['shift', 'reverse', 'move', 'assign'], rng.randint(2, 4))
+        if 'move' not in ops and 'shift' not in ops:
+            ops.append('move')
+    for op in ops:
+        if op == 'shift':
+            new = None
+            for _ in range(20):
+                dT = round(rng.uniform(glo - min(cur), ghi - max(cur)), 3)
+                cand = [x + dT for x in cur]
+                if dT != 0.0 and all(_in_range(sp, x) for x in cand):
+                    new = cand
+                    break
+            if new is None:
+                continue
+            steps.append(['shift', dT])
+        elif op == 'reverse':
+            new = cur[::-1]
+            steps.append(['reverse'])
+        elif op == 'move':
+            j = rng.randrange(n)
+            k = _seg_index(sp, cur[j])
+            others = [i for i in range(len(segs)) if i != k] or [k]
+            lo, hi = segs[rng.choice(others)]
+            v = rng.choice([_rand_in(rng, lo, hi), _rand_in(rng, lo, hi), lo, hi])
+            new = list(cur)
+            new[j] = v
+            steps.append(['move', j, v])
+        else:
+            new = [_rand_T(rng, sp) for _ in range(n)]
+            steps.append(['assign', new])
+        cur = list(new)
+    return {'kind': kind, 'T0': T0, 'steps': steps}
+
+
+def _make_alternation(rng, sp):
+    """two different array objects of equal length (same first and last element, different
+    interior) evaluated alternately with scalars in between"""
+    n = rng.randint(3, 10)
+    A = [_rand_T(rng, sp) for _ in range(n)]
+    B = [A[0]] + [_rand_T(rng, sp) for _ in range(n - 2)] + [A[-1]]
+    return {'kind': rng.choice(['list', 'ndarray']), 'A': A, 'B': B,
+            'scalars': [_rand_T(rng, sp), _rand_T(rng, sp)]}
 
 
 def _rand_in(rng, lo, hi, nd=3):
@@ -270,7 +366,7 @@ _R_SI = {'J/mol/K': 8.3144598, 'kJ/mol/K': 8.3144598e-3, 'cal/mol/K': 1.9872036,
          'm3 bar/mol/K': 8.3144598e-5, 'inch3 psi/mol/K': 73.59}
 
 
-def _case(rng, sp, style, n_T=3, arrays=None, n_ivals=2, n_int=2):
+def _case(rng, sp, style, n_T=3, arrays=None, n_ivals=2, n_int=2, hist=None):
     Ts = [_rand_T(rng, sp) for _ in range(n_T)]
     for lo, hi in _segments(sp):                     # at least one interior point per segment
         Ts.append(_rand_in(rng, lo, hi))
@@ -284,13 +380,17 @@ def _case(rng, sp, style, n_T=3, arrays=None, n_ivals=2, n_int=2):
             'ivals': _intervals(rng, sp, n_ivals)}
     if sp['type'] == 'Nasa9':
         case['out'] = _outside(sp, rng)
-        # arrays that contain one refused temperature
+        # arrays that contain one refused temperature: one per entry of `out`
         oa = []
-        for _ in range(2):
-            arr = _make_array(rng, sp, rng.randint(1, 12), elem='float')
-            arr['T'][rng.randrange(len(arr['T']))] = rng.choice(case['out'])[0]
+        picks = list(case['out'])
+        for T, where, dist in picks:
+            arr = _make_array(rng, sp, rng.randint(1, 8), elem='float')
+            arr['T'][rng.randrange(len(arr['T']))] = T
+            arr['where'], arr['dist'] = where, dist
             oa.append(arr)
         case['out_arrays'] = oa
+    case['hist'] = hist if hist is not None else [_make_history(rng, sp) for _ in range(rng.randint(1, 2))]
+    case['alt'] = _make_alternation(rng, sp)
     return case
 
 
@@ -321,6 +421,18 @@ def directed(tier):
             arrays = [_make_array(rng, sp, n, kind=kinds[n % 2], elem='int' if n % 7 == 3 else 'float')
                       for n in range(1, 51)]
             D.append(_case(rng, dict(sp), 'arbitrary', arrays=arrays, n_ivals=3))
+    # histories on one re-used temperature buffer: ramp T += dT across T_mid, every operation for every
+    # class and container
+    ramp = {'kind': 'ndarray', 'T0': [400.0, 600.0, 800.0, 950.0], 'steps': [['shift', 300.0], ['shift', 300.0]]}
+    ramp_l = dict(ramp, kind='list')
+    D.append(_case(rng, dict(n7), 'arbitrary', hist=[ramp, ramp_l]))
+    D.append(_case(rng, dict(n9), 'arbitrary', hist=[ramp, ramp_l]))
+    D.append(_case(rng, dict(sh), 'arbitrary', hist=[dict(ramp, steps=[['shift', 300.0], ['shift', 200.0]]),
+                                                    dict(ramp_l, steps=[['shift', 300.0], ['shift', 200.0]])]))
+    for sp in (n7, n9, sh):
+        hs = [_make_history(rng, sp, kind=k, n=6, ops=['shift', 'move', 'reverse', 'assign', 'move', 'shift'])
+              for k in ('list', 'ndarray')]
+        D.append(_case(rng, dict(sp), 'arbitrary', hist=hs))
     # NASA-9: 1-4 segments, contiguous and with a gap
     for nseg in (1, 2, 3, 4):
         for gap in (False, True):
@@ -570,6 +682,97 @@ class _Drv:
             ctx.close('E3', got['GoRT'], got['HoRT'] - got['SoR'], TOL_E3,
                       {'class': self.cname, 'tkind': arr['kind']}, scale=scale, T=Tl)
 
+    def eval_same(self, T, kind, tag):
+        """E5 (+E3) on THE GIVEN container object (no copy is made): every getter result equals the
+        per-element scalar evaluation of the container's *current* contents, and the getter leaves
+        the caller's container untouched."""
+        import numpy as np
+        ctx = self.ctx
+        snap = [float(x) for x in T]
+        n = len(snap)
+        got = {}
+        for q in QS:
+            mech = {'class': self.cname, 'q': q, 'tkind': kind, 'hist': tag}
+            r = ctx.call('E5', mech, getattr(self.obj, 'get_' + q), T=T)
+            now = [float(x) for x in T]
+            if now != snap:
+                ctx.fail('E5', dict(mech, what='input_modified'), before=snap, after=now)
+                T[:] = snap                                   # restore, in place
+            else:
+                ctx.held('E5')
+            if r is core.NOVALUE:
+                continue
+            vals = _values(ctx, 'E5', mech, r, n)
+            if vals is None:
+                continue
+            got[q] = vals
+            want, scale = [], []
+            for x in snap:
+                v = self.scalar(q, x, 'E1')
+                if v is None:
+                    break
+                want.append(v)
+                scale.append(self.model.ref(x)[0][q][1])
+            else:
+                ctx.close('E5', vals, want, TOL_E5, mech, scale=np.array(scale), T=snap, n=n)
+        if all(q in got for q in ('GoRT', 'HoRT', 'SoR')):
+            scale = np.array([self.model.ref(x)[0]['GoRT'][1] for x in snap])
+            ctx.close('E3', got['GoRT'], got['HoRT'] - got['SoR'], TOL_E3,
+                      {'class': self.cname, 'tkind': kind, 'hist': tag}, scale=scale, T=snap)
+
+    def history(self, h):
+        """evaluate, change the same container in place, evaluate again"""
+        import numpy as np
+        ctx = self.ctx
+        sp = self.model.sp
+        kind = h['kind']
+        T = np.array(h['T0'], dtype=float) if kind == 'ndarray' else [float(x) for x in h['T0']]
+        ident = id(T)
+        ctx.cls('hist:%s' % kind)
+        self.eval_same(T, kind, 'initial')
+        for step in h['steps']:
+            before = [_seg_index(sp, float(x)) for x in T]
+            op = step[0]
+            if op == 'shift':
+                if kind == 'ndarray':
+                    T += step[1]
+                else:
+                    for i in range(len(T)):
+                        T[i] += step[1]
+            elif op == 'reverse':
+                if kind == 'ndarray':
+                    T[:] = T[::-1].copy()
+                else:
+                    T.reverse()
+            elif op == 'move':
+                T[step[1]] = float(step[2])
+            else:
+                T[:] = [float(x) for x in step[1]]
+            if id(T) != ident or not all(_in_range(sp, float(x)) for x in T):
+                raise core.HarnessError('history left the range or rebound the container: %r' % (step,))
+            after = [_seg_index(sp, float(x)) for x in T]
+            ctx.cls('hist:%s' % op)
+            if before != after:
+                ctx.cls('hist:element_changed_segment')
+                ctx.nontrivial()
+            self.eval_same(T, kind, op)
+
+    def alternation(self, alt):
+        """two live array objects evaluated alternately, scalars in between: nothing may be
+        remembered from one call to the next"""
+        import numpy as np
+        kind = alt['kind']
+        mk = (lambda v: np.array(v, dtype=float)) if kind == 'ndarray' else (lambda v: [float(x) for x in v])
+        A, B = mk(alt['A']), mk(alt['B'])
+        sc = list(alt['scalars'])
+        self.ctx.cls('hist:alternate')
+        for k, T in enumerate((A, B, A, B)):
+            self.eval_same(T, kind, 'alternate')
+            x = float(sc[k % len(sc)])
+            for q in QS:                                       # forget the cached scalar answers
+                self.sc.pop((q, 'float', x), None)
+            self.e1_scalar(x, where='between_arrays')
+
     def e2_interval(self, T1, T2):
         ctx = self.ctx
         mech = {'class': self.cname}
@@ -785,6 +988,13 @@ def run_case(spec, ctx):
             ctx.cls('array:has_break')
         drv.e5_array(arr)
 
+    # ---- histories on one container object changed in place; alternating containers: E5, E3, E1
+    for h in spec.get('hist', []):
+        ctx.cls('hist:%s' % kind)
+        drv.history(h)
+    if spec.get('alt'):
+        drv.alternation(spec['alt'])
+
     # ---- integral forms: E2
     for T1, T2, tag in spec['ivals']:
         ctx.cls(tag)
@@ -792,16 +1002,20 @@ def run_case(spec, ctx):
 
     # ---- NASA-9 refusal: E4
     if kind == 'Nasa9':
-        for T, where in spec.get('out', []):
-            ctx.cls('out:%s' % where)
+        for ent in spec.get('out', []):
+            T, where = ent[0], ent[1]
+            dist = ent[2] if len(ent) > 2 else 'far'
+            ctx.cls('out:%s' % where, 'out:%s:%s' % (where, dist))
             for q in QS:
-                ctx.raises('E4', (Exception,), {'class': kind, 'q': q, 'where': where, 'tkind': 'float'},
+                ctx.raises('E4', (Exception,), {'class': kind, 'q': q, 'where': where, 'dist': dist, 'tkind': 'float'},
                            getattr(obj, 'get_' + q), T=float(T))
         for arr in spec.get('out_arrays', []):
-            ctx.cls('out:in_array')
+            where, dist = arr.get('where', 'any'), arr.get('dist', 'far')
+            ctx.cls('out:in_array', 'out_arr:%s:%s' % (where, dist))
             for q in QS:
                 Tin = np.array(arr['T']) if arr['kind'] == 'ndarray' else list(arr['T'])
-                ctx.raises('E4', (Exception,), {'class': kind, 'q': q, 'where': 'in_array', 'tkind': arr['kind']},
+                ctx.raises('E4', (Exception,), {'class': kind, 'q': q, 'where': 'in_array:%s' % where, 'dist': dist,
+                                                'tkind': arr['kind']},
                            getattr(obj, 'get_' + q), T=Tin)
         for lo, hi in segs:                                   # on every bound: never refused
             for T in (lo, hi):
